@@ -138,9 +138,9 @@ def handle (inp out : Sexp) : CaseResult :=
     | some h =>
     match out with
     | .list [.atom "out", .list (.atom "new" :: nw), .list (.atom "trace" :: sts), .list [.atom "rused", ru],
-             .list [.atom "eq", e], .list [.atom "calq", cq], .list [.atom "keymm", km]] =>
-      match nw.mapM decInstr, decQubits ru, decBool e, cq.asNat?, km.asNat? with
-      | some fresh, some rused, some eq, some calq, some keymm =>
+             .list [.atom "eq", e], .list [.atom "calq", cq], .list [.atom "keymm", km], .list (.atom "sib" :: sibs)] =>
+      match nw.mapM decInstr, decQubits ru, decBool e, cq.asNat?, km.asNat?, sibs.mapM Sexp.asStr? with
+      | some fresh, some rused, some eq, some calq, some keymm, some sib =>
         let tbl := h.instrs ++ fresh
         match sts.mapM (decState tbl) with
         | none => { agree := false, specOk := true, nontrivial := false, tags := ["undecodable-output"], detail := s!"impl={out}" }
@@ -149,7 +149,7 @@ def handle (inp out : Sexp) : CaseResult :=
           let final := eval h
           let rebuilt := fromInstructions (toInstructions final)
           let projOk := tbl.all Instr.projOk
-          let agree := projOk && keymm == 0 && ps.length == states.length &&
+          let agree := projOk && keymm == 0 && sib.isEmpty && ps.length == states.length &&
             (ps.zip states).all (fun (p, s) => agreeState p s) &&
             setEq rebuilt.used rused && progEq final rebuilt == eq
           let last := states.getLast?
@@ -157,7 +157,7 @@ def handle (inp out : Sexp) : CaseResult :=
           -- program equals the one rebuilt from its listing
           let invOk := match last with | some s => s.inv | none => false
           -- calq: calibration definitions whose get_qubits is not identifier ++ body qubits
-          let specOk := invOk && eq && calq == 0 && keymm == 0
+          let specOk := invOk && eq && calq == 0 && keymm == 0 && sib.isEmpty
           let noLoss := h.noLoss
           let noStale := h.noStale
           let valid := h.valid
@@ -169,40 +169,45 @@ def handle (inp out : Sexp) : CaseResult :=
           let tags := h.opNames.eraseDups ++
             [s!"ops{min h.size 9}", if valid then "valid" else "INVALID",
              if noLoss then "noLoss" else "loss", if noStale then "noStale" else "stale",
-             if invB final then "inv" else "inv-broken"] ++ (if keymm == 0 then [] else ["key-mismatch"]) ++ kf
+             if invB final then "inv" else "inv-broken"] ++ (if keymm == 0 then [] else ["key-mismatch"]) ++ (if sib.isEmpty then [] else ["sibling-mismatch"]) ++
+            (let l := toInstructions final
+             if l.isEmpty then ["flavour-empty"] else if l.all (fun i => i.kind == .mcal) then ["flavour-only-mcal"]
+             else if l.all (fun i => i.kind == .cal || i.kind == .mcal) then ["flavour-only-calibrations"]
+             else if l.all (fun i => i.kind != .body) then ["flavour-only-definitions"] else []) ++
+            (if final.used.any (fun q => match q with | .ph _ => true | _ => false) then ["placeholder-in-cache"] else []) ++ kf
           { agree, specOk, nontrivial, tags,
             detail := s!"model spine: {ps.map showProg} rebuilt.used={showQubits rebuilt.used} eq={progEq final rebuilt} | " ++
-              s!"impl trace: {states.map showState} rused={showQubits rused} eq={eq} new={showListing fresh} projOk={projOk} calqMismatches={calq} keyMismatches={keymm}" }
-      | _, _, _, _, _ => { agree := false, specOk := true, nontrivial := false, tags := ["undecodable-output"], detail := s!"impl={out}" }
+              s!"impl trace: {states.map showState} rused={showQubits rused} eq={eq} new={showListing fresh} projOk={projOk} calqMismatches={calq} keyMismatches={keymm} failedSiblingRelations={sib}" }
+      | _, _, _, _, _, _ => { agree := false, specOk := true, nontrivial := false, tags := ["undecodable-output"], detail := s!"impl={out}" }
     | _ => { agree := false, specOk := true, nontrivial := false, tags := ["undecodable-output"], detail := s!"impl={out}" }
   | .list [.atom "pair", ax, bx] =>
     match decHist ax, decHist bx with
     | some a, some b =>
       match out with
-      | .list [.atom "pout", .list (.atom "new" :: nw), sa, sb, .list [.atom "eq", e], .list [.atom "keymm", km]] =>
-        match nw.mapM decInstr, decBool e, km.asNat? with
-        | some fresh, some eq, some keymm =>
+      | .list [.atom "pout", .list (.atom "new" :: nw), sa, sb, .list [.atom "eq", e], .list [.atom "keymm", km], .list (.atom "sib" :: sibs)] =>
+        match nw.mapM decInstr, decBool e, km.asNat?, sibs.mapM Sexp.asStr? with
+        | some fresh, some eq, some keymm, some sib =>
           let tbl := a.instrs ++ b.instrs ++ fresh
           match decState tbl sa, decState tbl sb with
           | some sa, some sb =>
             let pa := eval a
             let pb := eval b
-            let agree := tbl.all Instr.projOk && keymm == 0 && agreeState pa sa && agreeState pb sb && progEq pa pb == eq
+            let agree := tbl.all Instr.projOk && keymm == 0 && sib.isEmpty && agreeState pa sa && agreeState pb sb && progEq pa pb == eq
             -- spec: the same listing implies equal programs
             let same := decide (sa.listing = sb.listing)
-            let specOk := (!same || eq) && keymm == 0
+            let specOk := (!same || eq) && keymm == 0 && sib.isEmpty
             let kf := if specOk then [] else
               (if sa.inv then [] else kfTags a a.noLoss a.noStale sa) ++
               (if sb.inv then [] else kfTags b b.noLoss b.noStale sb)
             -- a failing pair is explained only if every side whose cache is wrong is explained
-            let explained := keymm == 0 && (sa.inv || !(kfTags a a.noLoss a.noStale sa).isEmpty) &&
+            let explained := keymm == 0 && sib.isEmpty && (sa.inv || !(kfTags a a.noLoss a.noStale sa).isEmpty) &&
                              (sb.inv || !(kfTags b b.noLoss b.noStale sb).isEmpty) && !(sa.inv && sb.inv)
             let tags := ["pair", if same then "same-listing" else "different-listing",
               if eq then "eq" else "neq"] ++ (if explained then kf.eraseDups else [])
             { agree, specOk, nontrivial := same && (a.size + b.size ≥ 1), tags,
               detail := s!"model: a={showProg pa} b={showProg pb} eq={progEq pa pb} | impl: a={showState sa} b={showState sb} eq={eq}" }
           | _, _ => { agree := false, specOk := true, nontrivial := false, tags := ["undecodable-output"], detail := s!"impl={out}" }
-        | _, _, _ => { agree := false, specOk := true, nontrivial := false, tags := ["undecodable-output"], detail := s!"impl={out}" }
+        | _, _, _, _ => { agree := false, specOk := true, nontrivial := false, tags := ["undecodable-output"], detail := s!"impl={out}" }
       | _ => { agree := false, specOk := true, nontrivial := false, tags := ["undecodable-output"], detail := s!"impl={out}" }
     | _, _ => .bad "undecodable pair"
   | _ => .bad s!"undecodable input {inp}"
